@@ -36,25 +36,29 @@ def eraseUnder (t : Tree) (p : Path) : Tree := List.filter (fun e => !(p.isPrefi
 def children (t : Tree) (p : Path) : List Path :=
   (List.filter (fun e => e.1 != [] && parent e.1 == p) t).map (·.1)
 
+/-- a trailing `/` demands a directory: `f/` never names a file -/
+def trailingSlash (s : Str) : Bool := s.getLast? == some '/'
+
 /-- `PATH_EXISTS` etc. on the raw string: the empty string names nothing -/
-def existsS (t : Tree) (s : Str) : Bool := s != [] && pathExists t (components s)
-def isFileS (t : Tree) (s : Str) : Bool := s != [] && isFile t (components s)
+def existsS (t : Tree) (s : Str) : Bool :=
+  s != [] && (if trailingSlash s then isDir t (components s) else pathExists t (components s))
+def isFileS (t : Tree) (s : Str) : Bool := s != [] && !trailingSlash s && isFile t (components s)
 def isDirS (t : Tree) (s : Str) : Bool := s != [] && isDir t (components s)
 
 /-- `File::create_new` -/
 def fileCreate (t : Tree) (s : Str) : Tree × Bool :=
   let p := components s
-  if s == [] || p == [] || pathExists t p || !isDir t (parent p) then (t, false)
+  if s == [] || trailingSlash s || p == [] || pathExists t p || !isDir t (parent p) then (t, false)
   else (put t p (.file []), true)
 
 /-- `remove_file` -/
 def fileRemove (t : Tree) (s : Str) : Tree × Bool :=
   let p := components s
-  if s != [] && isFile t p then (erase t p, true) else (t, false)
+  if s != [] && !trailingSlash s && isFile t p then (erase t p, true) else (t, false)
 
 /-- `read_to_string` -/
 def fileRead (t : Tree) (s : Str) : Option Str :=
-  if s == [] then none else
+  if s == [] || trailingSlash s then none else
   match find? t (components s) with
   | some (.file c) => some c
   | _ => none
@@ -62,7 +66,7 @@ def fileRead (t : Tree) (s : Str) : Option Str :=
 /-- `OpenOptions::append(true).open` + `write!` -/
 def fileAppend (t : Tree) (s : Str) (text : Str) : Tree × Bool :=
   let p := components s
-  if s == [] then (t, false) else
+  if s == [] || trailingSlash s then (t, false) else
   match find? t p with
   | some (.file c) => (put t p (.file (c ++ text)), true)
   | _ => (t, false)
@@ -70,7 +74,7 @@ def fileAppend (t : Tree) (s : Str) (text : Str) : Tree × Bool :=
 /-- `OpenOptions::write(true).truncate(true).open` + `write!` -/
 def fileOverwrite (t : Tree) (s : Str) (text : Str) : Tree × Bool :=
   let p := components s
-  if s == [] then (t, false) else
+  if s == [] || trailingSlash s then (t, false) else
   match find? t p with
   | some (.file _) => (put t p (.file text), true)
   | _ => (t, false)
@@ -100,7 +104,10 @@ def dirRemove (t : Tree) (s : Str) : Tree × Bool :=
 /-- `remove_dir_all`: an existing directory other than the root, with everything below it -/
 def dirRemoveAll (t : Tree) (s : Str) : Tree × Bool :=
   let p := components s
-  if s != [] && p != [] && isDir t p then (eraseUnder t p, true) else (t, false)
+  if s != [] && p != [] && isDir t p then (eraseUnder t p, true)
+  -- `remove_dir_all(".")` empties the sandbox root and then fails to remove the root itself
+  else if s != [] && p == [] then ([], false)
+  else (t, false)
 
 /-- `read_dir(path)`: each entry as `path.join(name)`; `none` when the path is not a directory -/
 def dirRead (t : Tree) (s : Str) : Option (List Str) :=
